@@ -141,16 +141,17 @@ def c07a(ck, prog):
     if not conv:
         conv = [c for c in fz.calls() if re.search(r"From<.*>>::from$|Into<.*>>::into$", c.callee or "") and "Router" in " ".join(c.targs)]
     pan = [c for c in fz.calls() if re.search(r"core::panicking::", c.callee or "") and ("assert" in c.mx or "panic" in c.mx)]
-    ok = bool(pan) and bool(conv)
-    how = "?"
-    if ok:
-        # the panic is the false edge of `handler_meta.n_params <= route.n_params()`
-        fa = [x for x in guards.facts_at(fz, prog, pan[0].bb) if x.kind == "cmp"]
+    ok = False
+    how = "no assertion found"
+    descs = []
+    for pc in pan:
+        # a panic on the false edge of `handler_meta.n_params <= route.n_params()`
+        fa = [x for x in guards.facts_at(fz, prog, pc.bb) if x.kind == "cmp"]
         desc = ["%s %s %s" % (guards.describe_origin(fz, x.lhs), x.op, guards.describe_origin(fz, x.rhs)) for x in fa]
-        ok = any(re.search(r"n_params.* Gt .*call:n_params|call:n_params Lt .*n_params", d) for d in desc)
-        how = "; ".join(desc)
-        # the conversion happens after the loop: not reachable without passing the loop head
-        ok = ok and not fz.dominates(conv[0].bb, pan[0].bb)
+        descs += desc
+        if any(re.search(r"n_params.* Gt .*call:n_params|call:n_params Lt .*n_params", d) for d in desc) and conv and not fz.dominates(conv[0].bb, pc.bb):
+            ok = True
+    how = "; ".join(descs) or how
     ck.ob(R, "finalize:arity-guard", ok, fz.loc(None), "" if ok else "Router::finalize does not refuse a handler that needs more path parameters than its route captures (%s): assume_* would read uninitialised memory" % how, how="assert!(handler.n_params <= route.n_params()) for every route, before Router::from")
 
 
